@@ -360,7 +360,7 @@ class Scheduler:
         pair = self._pair(world)
         if pair is None:
             return None
-        op = r.choices(ops.BINARY_OPERATORS, [5, 5, 5, 5, 1, 1])[0]
+        op = r.choices(ops.BINARY_OPERATORS, [5, 5, 5, 5, 1, 1, 1, 1, 1, 1])[0]
         step = {"op": op, "a": pair[0], "b": pair[1], "dst": self._slot_for_result(world)}
         return self._oracle_flags(step)
 
@@ -423,6 +423,8 @@ class Scheduler:
         if kind == "moment":
             ea = r.randint(0, 2)
             step["ea"], step["eb"] = ea, r.randint(0, 2 - ea)
+            if r.random() < 0.15:
+                step["nnodes"] = r.choice([1, 2, 3, 9, 12])  # a user-chosen quadrature order
         if kind in ("jlen", "points", "jarea"):
             step["k"] = self._jordan_index(world, a)
         if kind == "points":
@@ -560,6 +562,12 @@ class Scheduler:
                 sy = sx if r.random() < 0.4 else Fraction(r.randint(1, 8), r.randint(1, 8))
             return {"op": "scale", "a": a, "sx": J(sx), "sy": J(sy)}
         if kind == "rotate":
+            last = getattr(self, "_last_angle", None)
+            if last is not None and r.random() < 0.15:
+                # almost the angle of an earlier rotation (same to 6 significant digits)
+                ang = last * (1 + r.choice([3e-8, -2e-8, 4e-7]))
+                self._last_angle = None
+                return {"op": "rotate", "a": a, "angle": J(ang), "degrees": None}
             if r.random() < 0.06:
                 ang = r.choice([0, 1e-10, -1e-12, 360, 720, -360, 360.0, 180, -180, 540])
                 return {"op": "rotate", "a": a, "angle": J(ang), "degrees": ang not in (1e-10, -1e-12) or None}
@@ -571,6 +579,7 @@ class Scheduler:
                     st["angle"] = J(float(ang))
                 return st
             ang = r.uniform(-math.tau, math.tau) if r.random() < 0.8 else r.choice([1, 2, 3, -1])
+            self._last_angle = float(ang)
             deg = r.choice([None, False])
             return {"op": "rotate", "a": a, "angle": J(ang), "degrees": deg}
         st = {"op": "invert", "a": a}
@@ -768,7 +777,10 @@ class Scheduler:
         k = self._jordan_index(world, a)
         first = {"op": "seg_derivate", "a": a, "k": k, "i": r.randrange(64), "times": r.choice([1, 2, 2, 3]),
                  "t1": True, "t2": False, "repeat": False, "drop": "live"}
-        if r.random() < 0.25:
+        if r.random() < 0.25 and kernel.kind(world.slots[a].V) != "J":
+            first = {"op": "moment", "a": a, "ea": r.randint(0, 1), "eb": 0, "nnodes": r.choice([1, 2, 9]),
+                     "t1": True, "t2": False, "repeat": False, "drop": "live"}
+        elif r.random() < 0.25:
             first = {"op": "seg_eval", "a": a, "k": k, "i": r.randrange(64), "t": J(Fraction(r.randint(0, 4), 4)),
                      "t1": True, "t2": False, "repeat": False, "drop": "live"}
         follow = None
@@ -1074,7 +1086,7 @@ class Scheduler:
             if self.rng.random() < 0.5:
                 a, b = b, a
             if self.rng.random() < 0.75:
-                op = self.rng.choices(ops.BINARY_OPERATORS, [5, 5, 5, 5, 1, 1])[0]
+                op = self.rng.choices(ops.BINARY_OPERATORS, [5, 5, 5, 5, 1, 1, 1, 1, 1, 1])[0]
                 st = {"op": op, "a": a, "b": b, "dst": self._slot_for_result(world)}
             else:
                 st = {"op": self.rng.choice(["in_shape", "eq", "ne"]), "a": a, "b": b}
